@@ -67,6 +67,7 @@ pub fn world(role: Role) -> MemDb {
     db.deploy(contract(6), kit::coinbase_reader());
     db.deploy(contract(8), kit::probe_slot());
     db.deploy(contract(0), kit::incr());
+    db.deploy(contract(9), kit::coinbase_hash_reader());
     db
 }
 
@@ -91,6 +92,9 @@ pub fn templates(role: Role, f: Fee) -> Vec<Template> {
         tpl("read-coinbase(e1)", eoa(1), &["coinbase"], move |n| fee(tx(eoa(1), n, Some(contract(6)), 0, Default::default()), f)),
         tpl("read-coinbase-slot1(e2)", eoa(2), &["coinbase"], move |n| fee(call(eoa(2), n, contract(8), &[word_addr(cb), word(1)]), f)),
     ];
+    // EXTCODEHASH tells an absent account (0) from an existing empty one: "an absent beneficiary is
+    // materialised only by a non-zero credit", "a zero reward still touches the account"
+    v.push(tpl("read-coinbase-hash(e0)", eoa(0), &["coinbase"], move |n| fee(tx(eoa(0), n, Some(contract(9)), 0, Default::default()), f)));
     match role {
         Role::Sender => v.push(tpl("coinbase-sends(e0>e3)", eoa(0), &["coinbase"], move |n| fee(transfer(eoa(0), n, eoa(3), 77), f))),
         Role::Recipient => v.push(tpl("coinbase-receives(e0>e1)", eoa(0), &["coinbase"], move |n| fee(transfer(eoa(0), n, eoa(1), 77), f))),
@@ -149,7 +153,7 @@ pub fn jobs(tier: Tier) -> Vec<Job> {
                         continue;
                     }
                     // at least one reader or role action, and not only readers
-                    let interesting = seq.iter().any(|&t| t >= 2) && seq.iter().any(|&t| t < 2 || t >= 4);
+                    let interesting = seq.iter().any(|&t| t >= 2) && seq.iter().any(|&t| t < 2 || t >= 5);
                     if !interesting {
                         continue;
                     }
@@ -157,7 +161,7 @@ pub fn jobs(tier: Tier) -> Vec<Job> {
                     let Some(mut case) = build_case(&name, spec, &db, &templates, &seq) else { continue };
                     case.env.beneficiary = beneficiary_of(role);
                     let bound = match (tier, seq.len()) {
-                        (Tier::Quick, 2) if spec == SpecId::CANCUN && seq.iter().any(|&t| t == 2 || t == 3) && f == Fee::Tip3 => 2,
+                        (Tier::Quick, 2) if spec == SpecId::CANCUN && seq.iter().any(|&t| t == 2 || t == 3 || t == 4) && f == Fee::Tip3 => 2,
                         (Tier::Quick, _) => 1,
                         (Tier::Thorough, 2) => 3,
                         (Tier::Thorough, _) => 2,
